@@ -457,6 +457,23 @@ def r12h(F):
 RULES.append(('12.h', 'hand-written one-byte enum codecs: writer and reader tables agree; lossy variants come back as the reviewed canonical variant', r12h))
 
 
+def _primary_local(e, depth=0):
+	"""the user variable at the head of an Option / Result combinator chain (`a.or(b).unwrap_or(c)`, `a.map(f).unwrap_or_default()`, `a.ok_or(..)?`)"""
+	if depth > 12:
+		return None
+	k = e[0]
+	if k == 'local':
+		return e[2]
+	if k in ('ref', 'deref', 'cast', 'downcast'):
+		return _primary_local(e[1], depth + 1)
+	if k == 'field' and e[2] == '0':
+		return _primary_local(e[1], depth + 1)
+	if k == 'call' and e[2]:
+		tail = (e[1] or '').rsplit('::', 1)[-1]
+		if tail in ('or', 'or_else', 'unwrap_or', 'unwrap_or_else', 'unwrap_or_default', 'unwrap', 'expect', 'map', 'and_then', 'ok_or', 'ok_or_else', 'branch', 'into', 'from', 'clone', 'take', 'ok', 'map_err', 'flatten', 'filter', 'copied', 'cloned'):
+			return _primary_local(e[2][0], depth + 1)
+	return None
+
 def r12i(F):
 	"""hand-written TLV tables restore each value into the field it was written from: if type n is written from field X but the reader
 	stores type n into another field Y, while X is restored from a different type and nothing writes Y, then Y does not survive a reload
@@ -496,6 +513,7 @@ def r12i(F):
 		except AnchorMissing:
 			continue
 		feeds = collections.defaultdict(set)
+		primary = {}
 		for fu in fams:
 			ex = Expr(fu)
 			for bi, si, st in fu.stmts():
@@ -503,8 +521,12 @@ def r12i(F):
 				if rv[0] == 'agg' and rv[1] == 'adt' and len(rv) > 5 and rv[5] and not norm(rv[2]).startswith('core::'):
 					for g, op in zip(rv[5], rv[4]):
 						if not g.isdigit():
-							for nm in expr_leaves(ex.of_operand(op))['locals']:
+							e0 = ex.of_operand(op)
+							for nm in expr_leaves(e0)['locals']:
 								feeds[nm].add(g)
+							pl = _primary_local(e0)
+							if pl:
+								primary.setdefault(g, set()).add(pl)
 		wt = {n: f for n, f, k in tlv.entry_types(w)}
 		rt = {n: [x for x in IDENT.findall(f) if x not in ('ref', 'mut')] for n, f, k in tlv.entry_types(r)}
 		wfields = {wfield(src) for src in wt.values()} - {None}
@@ -522,6 +544,27 @@ def r12i(F):
 			if fw not in G and elsewhere:
 				out.append(Result('12.i', False, 'wrong-source:%s:%s' % (p.name, n), '%s writes field `%s` under TLV type %s, but %s restores type %s into %s, while `%s` itself is restored from type %s: after a reload %s holds the value of `%s`' % (
 					tlv.desc(w), fw, n, tlv.desc(r), n, sorted(G), fw, elsewhere, sorted(G), fw), 2, where='%s:%d' % (w['rel'], w['line'])))
+		# (b) the PRIMARY source of a field that has a TLV type of its own is that type's variable: in `a.or(b).unwrap_or(c)` the head `a` decides
+		# whenever it is present, `b` / `c` are fallbacks for old data.  A field whose head is the variable of ANOTHER field's type is overwritten with
+		# that other field's value on every reload of current data, although its own value was written and read.
+		own = {}
+		for n in wt:
+			fw = wfield(wt[n])
+			if fw is not None and n in rt:
+				own.setdefault(fw, set()).add(n)
+		for g, heads in primary.items():
+			if g not in own:
+				continue
+			for h in heads:
+				src_types = [n2 for n2 in rt if h in rt[n2] and n2 in wt]
+				for n2 in src_types:
+					fx = wfield(wt[n2])
+					if fx is None or fx == g or n2 in own[g]:
+						continue
+					if not any(h in rt[m] for m in own[g]):
+						n_cells += 1
+						out.append(Result('12.i', False, 'wrong-primary:%s:%s' % (p.name, g), '%s restores field `%s` primarily from the variable of TLV type %s, which %s writes from field `%s`; `%s` has its own type %s, which is read but only used as a fallback: after a reload of current data `%s` holds the value of `%s`' % (
+							tlv.desc(r), g, n2, tlv.desc(w), fx, g, sorted(own[g]), g, fx), 2, where='%s:%d' % (r['rel'], r['line'])))
 	if n_cells < 150:
 		out.append(Result('12.i', False, 'floor:restored-field-cells', 'only %d (TLV type, written field, restored field) cells could be related (expected >= 150)' % n_cells, n_cells))
 	if not out:
